@@ -58,7 +58,7 @@ def bases(seed):
     return qs, named, A, B
 
 
-TRANSFORMS = ['lower', 'mixed', 'dspace', 'manyspaces', 'tabsep', 'nlsep', 'c_before', 'c_between', 'c_after', 'semicolon', 'bracket_fields', 'toplimit', 'joinalt', 'eqsingle', 'swapon', 'from_a', 'asc', 'swapodd']
+TRANSFORMS = ['lower', 'mixed', 'dspace', 'manyspaces', 'tabsep', 'nlsep', 'c_before', 'c_between', 'c_after', 'semicolon', 'bracket_fields', 'toplimit', 'joinalt', 'eqsingle', 'swapon', 'from_a', 'asc', 'swapodd', 'dsep', 'tabsp', 'parenpad']
 
 
 def apply(subset, q):
@@ -73,6 +73,9 @@ def apply(subset, q):
             kw['assign_eq'] = '     =     '
         elif t == 'tabsep': kw['sep'] = '\t'
         elif t == 'nlsep': kw['sep'] = '\n'
+        elif t == 'dsep': kw['sep'] = '   '          # runs of blanks BETWEEN clauses (after DESC / ASC, after the last list item)
+        elif t == 'tabsp': kw['sep'] = '\t '
+        elif t == 'parenpad': kw['paren_pad'] = '  '
         elif t == 'c_before': kw['comment'] = 'before'
         elif t == 'c_between': kw['comment'] = 'between'
         elif t == 'c_after': kw['comment'] = 'after'
@@ -95,9 +98,9 @@ def conflicting(subset):
     if 'lower' in s and 'mixed' in s: return True
     if 'swapon' in s and 'swapodd' in s: return True
     if 'dspace' in s and 'manyspaces' in s: return True
-    if 'tabsep' in s and 'nlsep' in s: return True
+    if len(s & {'tabsep', 'nlsep', 'dsep', 'tabsp'}) > 1: return True
     if len(s & {'c_before', 'c_between', 'c_after'}) > 1: return True
-    if 'c_between' in s and ('tabsep' in s or 'nlsep' in s): return True
+    if 'c_between' in s and (s & {'tabsep', 'nlsep', 'dsep', 'tabsp'}): return True
     return False
 
 
@@ -279,7 +282,7 @@ def main(tier, seed):
         shards.append({'part': 'literals', 'seed': seed, 'lo': lo, 'hi': hi, 'maxtok': maxtok})
     res = core.run_shards('vf.checks.c08', shards)
     return core.finish(PID, tier, seed, res, t0,
-        rule='A: %d base queries x all subsets up to the size bound of 18 spelling transformations (conflicting pairs excluded) x all clause permutations (<= 4 clauses; order and its reverse otherwise), differential against the canonical spelling; '
+        rule='A: %d base queries x all subsets up to the size bound of 21 spelling transformations (conflicting pairs excluded) x all clause permutations (<= 4 clauses; order and its reverse otherwise), differential against the canonical spelling; '
              'B: all token sequences up to the length bound over a %d-token literal alphabet x 2 quote styles x 4 positions x header/no header against RefQL with the literal as an opaque value; non-trivial = a transformed spelling / a non-empty literal' % (n, len(TOKENS)),
         assumptions=['the canonical spelling is tied to RefQL by C01-C05 (and re-checked here for every base query)', 'literal text is written with backslash and same-quote escapes only, tabs raw'],
         extra={'bases': n, 'transformations': TRANSFORMS, 'literal_tokens': TOKENS},
